@@ -408,7 +408,7 @@ Definition read_code_raw (ci : code_in) : res code_raw :=
   if (clen =? 0) || (65535 <? clen) then Err else
   do ls0 <- scan (S (length code)) clen 0 code [];
   do ls1 <- fold_res (fun ls e => match e with (s, e', h) =>
-              do a <- lbl_create clen ls s; do b <- lbl_create clen a e'; lbl_create clen b h end) ls0 (ci_exc ci);
+              do a <- lbl_create clen ls s; do b <- lbl_create_excl clen a e'; lbl_create clen b h end) ls0 (ci_exc ci);
   do fr <- frame_offsets true 0 (ci_frames ci);
   (* attributes are read in file order; the label SET does not depend on that order *)
   do ls2 <- fold_res (lbl_create clen) ls1 fr;
